@@ -165,6 +165,11 @@ func init() {
 					if _, ok := r.(string); ok {
 						panic(r) // interpreter-internal: not a target panic
 					}
+					if e, ok := r.(error); ok && strings.Contains(e.Error(), "interp.") {
+						// a failed type assertion inside the interpreter itself (a symbolic
+						// value reached a concrete-only intrinsic): unsupported, not a verdict
+						panic("unsupported in the engine: " + e.Error())
+					}
 					switch r := r.(type) {
 					case targetPanic:
 						msg = "panic: " + toString(r.v)
